@@ -48,10 +48,10 @@ Definition cs_union (s o : cs) : option (option cs) :=
     do c2 <- (if fst o <? fst s then (do p <- sub32 (fst s) 1; Some (p <=? snd o)) else Some false);
     if (c2 : bool) then Some (Some (fst o, max_end)) else Some None.
 
-Inductive pord := PEq | PLt | PGt | PNone.
+Inductive pord := OrdEq | OrdLt | OrdGt | OrdNone.
 Definition cs_eqb (s o : cs) : bool := (fst s =? fst o) && (snd s =? snd o).
 Definition cs_pcmp (s o : cs) : pord :=
-  if cs_eqb s o then PEq
-  else if snd s <? fst o then PLt
-  else if snd o <? fst s then PGt
-  else PNone.
+  if cs_eqb s o then OrdEq
+  else if snd s <? fst o then OrdLt
+  else if snd o <? fst s then OrdGt
+  else OrdNone.
